@@ -554,6 +554,16 @@ def check(ctx):
                         if isinstance(x_, ast.Return) and x_.value is not None:
                             v_ = x_.value
                             cfn = v_.func if isinstance(v_, ast.Call) else v_
+                            # the class may be a parameter of the factory:  def unexpected(self, error_class, ..): return error_class(..)  -- then the
+                            # argument at the raise site names it
+                            gp_ = flow.param_names(g_)
+                            if isinstance(cfn, ast.Name) and cfn.id in gp_ and isinstance(n.exc, ast.Call):
+                                idx_ = gp_.index(cfn.id) - (1 if gp_ and gp_[0] in ('self', 'cls') else 0)
+                                if 0 <= idx_ < len(n.exc.args):
+                                    cfn = n.exc.args[idx_]
+                                    rr = f._mod.resolve(cfn) if isinstance(cfn, (ast.Name, ast.Attribute)) else None
+                                    built.append(bool(hasattr(rr, 'mro') and {c.name for c in rr.mro()} & {'EncodeError', 'ConstraintsError'}))
+                                    continue
                             rr = g_._mod.resolve(cfn) if isinstance(cfn, (ast.Name, ast.Attribute)) else None
                             built.append(bool(hasattr(rr, 'mro') and {c.name for c in rr.mro()} & {'EncodeError', 'ConstraintsError'}))
                     ok = bool(built) and all(built)
